@@ -723,5 +723,6 @@ def getBlockBandwidth(m, nintj, nblok):
     """
     x = (nintj - 1) // nblok + 1
     jLow = (m - 1) * x + 1
-    jHigh = min(nintj, m * x)
+    # blocks beyond the last row are empty (jHigh = jLow - 1), never of negative size
+    jHigh = max(min(nintj, m * x), jLow - 1)
     return jLow - 1, jHigh - 1
